@@ -148,3 +148,39 @@ func followGood(rs []rec, g uint16) rec {
 	}
 	return rec{}
 }
+
+// ---- R-DIV ----
+
+type dev struct{ start, end uint16 }
+
+func divGood(d dev, ppem uint16, scale int32) int32 {
+	if ppem == 0 {
+		return 0
+	}
+	return scale / int32(ppem)
+}
+
+func divSwitchGood(kind uint8, w int32) int32 {
+	switch kind {
+	case 2, 3, 4:
+		return w / int32(kind)
+	}
+	return w
+}
+
+// seeded: the zero case was folded into the default
+func divSwitchBad(kind uint8, w int32) int32 {
+	switch kind {
+	case 1:
+		return w
+	default:
+		return w / int32(kind)
+	}
+}
+
+func divBad(d dev, ppem uint16, scale int32) int32 {
+	if ppem < d.start || ppem > d.end {
+		return 0
+	}
+	return scale / int32(ppem) // seeded: start may be 0
+}
